@@ -20,7 +20,7 @@ def main():
     only = sys.argv[1:] or None
     props = {json.loads(l)["id"]: json.loads(l) for l in open("/verif/properties.jsonl")}
     tfile = os.path.join(OUT, "detection_table.json")
-    table = [r for r in json.load(open(tfile)) if not r[0].endswith(("-c", "-d"))]
+    table = [r for r in json.load(open(tfile)) if not r["seed"].endswith(("-c", "-d"))]
     for pid in sorted(props):
         for x in ("c", "d"):
             src = os.path.join(SEED, pid, x)
@@ -28,7 +28,8 @@ def main():
             if only and pid not in only:
                 if os.path.exists(os.path.join(dst, "meta.json")):
                     m = json.load(open(os.path.join(dst, "meta.json")))
-                    table.append((pid + "-" + x, m["confirmed"], m["detected"], ", ".join(m["check_result"]["clauses"][:3])))
+                    table.append(dict(seed=pid + "-" + x, property=pid, confirmed=m["confirmed"], detected=m["detected"], ported=False,
+                                      round=2, missed_when_first_tried=m["missed_when_first_tried"], clauses=m["check_result"]["clauses"]))
                 continue
             if not os.path.isdir(src):
                 continue
@@ -49,9 +50,10 @@ def main():
                         missed_when_first_tried=(pid + "-" + x) in FIRST_MISSED,
                         check_result=chk, detected=chk["exit"] == 1)
             json.dump(meta, open(os.path.join(dst, "meta.json"), "w"), indent=1)
-            table.append((pid + "-" + x, meta["confirmed"], meta["detected"], ", ".join(chk["clauses"][:3])))
-            print(table[-1], flush=True)
-    table.sort()
+            table.append(dict(seed=pid + "-" + x, property=pid, confirmed=meta["confirmed"], detected=meta["detected"], ported=False,
+                              round=2, missed_when_first_tried=meta["missed_when_first_tried"], clauses=chk["clauses"]))
+            print(pid + "-" + x, meta["confirmed"], meta["detected"], chk["clauses"][:3], flush=True)
+    table.sort(key=lambda r: r["seed"])
     json.dump(table, open(tfile, "w"), indent=1)
 
 main()
